@@ -661,6 +661,32 @@ func (p *Pair) fin(why string) {
 	}
 }
 
+// Stall pauses delivery in direction dir (0 = client->server) for d: what is written piles up in
+// the socket buffer, and once that is full the writer blocks (a peer that has stopped reading).
+func (p *Pair) Stall(dir int, d time.Duration) {
+	p.n.fired("stall")
+	recv := p.S
+	if dir == 1 {
+		recv = p.C
+	}
+	recv.stallTo = time.Now().Add(d)
+	simrt.NotifyAt(recv.stallTo)
+	simrt.Logf("net stall conn=%d dir=%d for %v", p.ID, dir, d)
+}
+
+// HalfClose ends direction dir only: its receiver reads EOF after draining, its sender's writes
+// fail; the opposite direction is untouched.
+func (p *Pair) HalfClose(dir int) {
+	p.n.fired("half-close")
+	recv, snd := p.S, p.C
+	if dir == 1 {
+		recv, snd = p.C, p.S
+	}
+	recv.eof = true
+	snd.wbroken = true
+	simrt.Logf("net half-close conn=%d dir=%d", p.ID, dir)
+}
+
 func (p *Pair) closeAccounting() {
 	if !p.C.closed && !p.accounted {
 		p.accounted = true
